@@ -346,8 +346,15 @@ class Conic(Quadric):
         if any(tangent.contains(p) for p in [a, b, c, d]):
             raise IncidenceError("The supplied points cannot lie on the supplied tangent!")
 
-        a1, a2 = Line(a, c).meet(tangent).normalized_array, Line(b, d).meet(tangent).normalized_array
-        b1, b2 = Line(a, b).meet(tangent).normalized_array, Line(c, d).meet(tangent).normalized_array
+        def unit(p: Point) -> np.ndarray:
+            # a representative that does not depend on the scale of the arguments, also for points at infinity
+            arr = p.normalized_array
+            if p.isinf:
+                arr = arr / arr[np.flatnonzero(~np.isclose(arr, 0, atol=EQ_TOL_ABS))[0]]
+            return arr
+
+        a1, a2 = unit(Line(a, c).meet(tangent)), unit(Line(b, d).meet(tangent))
+        b1, b2 = unit(Line(a, b).meet(tangent)), unit(Line(c, d).meet(tangent))
 
         o = tangent.general_point.array
 
